@@ -3,7 +3,7 @@ PROPS["C09"] = {
     "level": "proof",
     "explanation": "(Shared with C20: c20_export_token_tree proves, for every format, the exact sequence of emitting routines of mmd_engine_export_token_tree -- for the packaged HTML formats EPUB/TextBundle the same body writer followed by the same footnote, glossary and citation lists as plain HTML, always wrapped as a complete document: the 'main document equals the plain rendering' clause at the level of the call trace.) epub_create, opendocument_text_create (-> opendocument_core_file_create -> opendocument_core_zip), textbundle_create and itmz_create are verified (goto-instrument --dfcc, real unmodified functions) against a ghost member table: miniz is used through a logging contract (name, buffer, size, flags per mz_zip_writer_add_mem; finalize hands out an uninterpreted archive). Required members are present exactly once, mimetype is member 0 (EPUB: with the EPUB media type; ODT: stored), the main document member is the caller's body, the archive is finalised once after all members and its (pointer,length) is returned in the DString.",
     "slice": "epub_create, opendocument_text_create, opendocument_core_file_create, opendocument_core_zip, textbundle_create, itmz_create; sub_asset_paths (offset handed to the image pass = length change of the css replacement), traverse_for_images, opendocument_manifest_file, asset_new / store_asset",
-    "not_reached": "ZIP validity and CRCs (miniz trusted); that container.xml / the OPF manifest TEXT names the members (generated text uninterpreted; for the ODF manifest: one asset, c09_odf_manifest_assets_*); asset-path consistency (add_assets by contract); equality of the inner document with the plain format's rendering",
+    "not_reached": "ZIP validity and CRCs (miniz trusted); that the OPF manifest TEXT names the members (generated text uninterpreted; container.xml's rootfile: c09_epub_static_members; for the ODF manifest: one asset, c09_odf_manifest_assets_*); asset-path consistency (add_assets by contract); equality of the inner document with the plain format's rendering",
     "trusted_base": ["cbmc/goto-cc/goto-instrument 6.11.0 (DFCC instrumentation, MiniSat2)", "miniz (mz_zip_writer_add_mem / finalize_heap_archive by logging contract)", "lib/ds_sink.c (DString specification)", "lib/libc_stubs.c strlen stub, CBMC built-in strcpy"],
     "assumptions": ["content generators (epub_container_xml, epub_package_document, epub_nav, opendocument_*_file, textbundle_info_json), scratch_pad_new/free, zip_new_archive, sub_asset_paths and add_assets are contracts", "body of 2 bytes, source text of at most 1 byte (neither is inspected by the functions under contract; textbundle_create copies the source text)"],
 }
@@ -56,3 +56,9 @@ U("c09_traverse_for_images_long_url", ["C09", "C01"], "h_traverse_long", ["C09/t
   functions=["traverse_for_images"],
   callees={"memcpy": "contract stub: destination writable / source readable for the whole length", "clean_string, d_string_replace_text_in_range": "contract stubs", "HASH_FIND_STR (uthash)": "real macro code over a real one-entry table", "stack_new": "body"},
   min_obligations=10, timeout=300, cost=15, assumptions=[NOFAIL])
+
+U("c09_epub_static_members", ["C09"], "h_epub_static", ["C09/epub_static.c"], ["epub.c"], plain=True, lib=(), kind="proof",
+  defines=["-DI18N_DISABLED=1"], cbmc_flags=["--unwind", "402", "--unwinding-assertions", "--object-bits", "10"],
+  functions=["epub_mimetype", "epub_container_xml", "my_strdup (epub.c)"],
+  callees={"d_string_new/d_string_append/d_string_free": "recording stubs (appends concatenated; DString itself: C19)", "strlen/strcpy/malloc": "CBMC built-in"},
+  min_obligations=10, timeout=300, cost=10, native=None, assumptions=[NOFAIL, "the functions take no input: the single concrete run is exhaustive (loops unwound to their concrete length, unwinding assertions on)"])
